@@ -1,6 +1,6 @@
 // The dependency crates' module paths, so that `use` lines and in-body paths of /repo resolve unchanged.
 pub mod cosmwasm_std {
-    pub use super::flat::{attr, coin, coins, to_binary, Addr, Binary, Coin, Deps, DepsMut, Env, MessageInfo, Response, StdError, StdResult, Uint128, Storage, Order, Timestamp, BankMsg, Empty, QuerierWrapper, OverflowError, BlockInfo, entry_point};
+    pub use super::flat::{attr, coin, coins, to_binary, Addr, Binary, Coin, Deps, DepsMut, Env, MessageInfo, Response, StdError, StdResult, Uint128, Storage, Order, Timestamp, BankMsg, Empty, QuerierWrapper, OverflowError, BlockInfo, entry_point, Api, Attribute};
 }
 pub mod provwasm_std { pub mod types {
     pub mod cosmos { pub mod base { pub mod v1beta1 { pub use crate::shim::flat::PCoin as Coin; } } }
